@@ -101,6 +101,12 @@ func (m *Model) DeriveValues(old, new proto.Message) {
 	}
 
 	if oldVal.PresetIndex != newVal.PresetIndex {
+		if len(m.presets) == 0 {
+			// no presets to index into
+			newVal.PresetIndex = -1
+			newVal.Preset = ""
+			return
+		}
 		// cap the index if needed, and update the preset and percentage
 		if newVal.PresetIndex >= int32(len(m.presets)) {
 			newVal.PresetIndex = int32(len(m.presets) - 1)
